@@ -251,7 +251,7 @@ pub struct VerifierCase {
     pub tag: u64,
 }
 
-pub const VERIFIER_VARIANTS: u8 = 14;
+pub const VERIFIER_VARIANTS: u8 = 16;
 
 fn variant_positions(p: &OtsParams, qd: &[u8], variant: u8, tag: u64) -> (Vec<u32>, &'static str) {
     let top = (1u32 << p.w) - 1;
@@ -328,6 +328,26 @@ fn variant_positions(p: &OtsParams, qd: &[u8], variant: u8, tag: u64) -> (Vec<u3
             }
             "checksum-digits-complemented"
         }
+        14 => {
+            let mut t = tag;
+            for _ in 0..1 + (tag % 3) {
+                let i = (t >> 8) as usize % p.p;
+                v[i] = ((t >> 24) as u32) % (top + 1);
+                t = t.wrapping_mul(0x9e37_79b9_7f4a_7c15).rotate_left(17);
+            }
+            "random-perturbation"
+        }
+        15 => {
+            // the practical forgery attempt: advance a subset of chains by one step
+            let mut t = tag | 1;
+            for d in v.iter_mut() {
+                if t & 1 == 1 && *d < top {
+                    *d += 1;
+                }
+                t = t.rotate_right(1);
+            }
+            "subset-of-chains-advanced"
+        }
         _ => {
             // only the last checksum digit loses its low bits
             let l = v.len() - 1;
@@ -341,7 +361,7 @@ fn variant_positions(p: &OtsParams, qd: &[u8], variant: u8, tag: u64) -> (Vec<u3
     (v, name)
 }
 
-fn check_verifier(ctx: &Ctx, c: &VerifierCase) -> Verdict {
+pub fn check_verifier(ctx: &Ctx, c: &VerifierCase) -> Verdict {
     let n = c.hash.n();
     let m = compat_model(ctx, c.hash);
     let p = m.ots(c.w);
